@@ -274,3 +274,16 @@ PROPS["C06"] = {
               "require_labels": ["shared-string-user-removed", "document-moved-between-ledgers", "pool-requests-watched", "declared-length-exceeds-input"]},
     "thorough": {"configs": ["default", "g1_16_4_1", "g1_4_1_1", "g2_2_1_4", "g2_128_4_2"], "cases": 2000000, "floor_evaluations": 5000000},
 }
+
+PROPS["C14"] = {
+    "title": "How a string is stored (linked, copied, de-duplicated) is unobservable",
+    "src": "c14.cpp",
+    "level": "exploration",
+    "technique": "lockstep differential testing: one model-generated history executed once per string source kind (8 kinds, 10 with the Arduino mocks), full observable vector compared across the runs and with the tree model after every step; source buffers of copied kinds are overwritten right after each call; inspector reference counts",
+    "rule": "case = history of 10-60 string-heavy operations (values, keys, member writes through proxies and handles, copies, removals, document-level operations) on 2 documents, with texts that are empty, contain NUL or bytes >= 0x80, look numeric (\"3.25\", \"1e3\", \"18446744073709551615\", \"-0\") or repeat (sharing), executed in lockstep with every string argument given as: generated mix, std::string, string_view, JsonString (copied), const char* (linked), char*, JsonString (linked), char[], Arduino String, flash string; observable vector = JSON, pretty JSON and MessagePack serializations, is<T>() and as<T>() for 9 numeric types / bool / const char* / JsonString / std::string / string_view, comparisons with 7 string probes and 6 scalars in both orders, key lookups by every kind incl. prefixes and extensions, size and nesting; non-trivial = >= 10 operations with a removal and at least one vector comparison; distinct = hash of the operation list",
+    "level_text": "Exploration with a differential oracle: any observable (other than JsonString::isLinked()) that differs between two storage kinds of the same text fails the check, as does any difference from the model after a source buffer was overwritten (copy independence) or after one user of a shared string was changed or removed.",
+    "level_note": "Strings containing NUL are given through sized kinds in every run (zero-terminated kinds cannot carry them).",
+    "quick": {"configs": ["default", "arduino"], "cases": 8000, "floor_evaluations": 12000, "floor_nontrivial": 2500},
+    "thorough": {"configs": ["default", "arduino", "g1_16_4_1"], "cases": 800000, "floor_evaluations": 1500000},
+    "regress": ["doc_set_char_array", "linked_string_as_double"],
+}
